@@ -36,6 +36,8 @@ TCompactMeta == Ev("CompactMeta") /\ CompactMeta
 TPrepIdx == Ev("PrepIdx") /\ PrepIdx
 TFlushIdx == Ev("FlushIdx") /\ FlushIdx
 TCompactIdx == Ev("CompactIdx") /\ CompactIdx
+TFlushIdxFail == Ev("FlushIdxFail") /\ FlushIdxPartial({Line.done[i] : i \in 1..Len(Line.done)})
+TFlushMetaFail == Ev("FlushMetaFail") /\ FlushMetaFailed
 TReopen == Ev("Reopen") /\ Reopen
 TRefresh == Ev("Refresh") /\ Refresh(Line.slot)
 
@@ -51,7 +53,7 @@ TQuery == Ev("Query") /\ UNCHANGED vars /\ Holds(QueryJudge)
 \* ---- a listing of the tag value dictionary of one key: a function value -> id over exactly the created values
 TDict == Ev("Dict") /\ UNCHANGED vars /\ Holds(DictOK(Line.k, Line.entries))
 
-TraceNext == TReset \/ TWrite \/ TPrepMeta \/ TFlushMeta \/ TCompactMeta \/ TPrepIdx \/ TFlushIdx \/ TCompactIdx
+TraceNext == TReset \/ TFlushIdxFail \/ TFlushMetaFail \/ TWrite \/ TPrepMeta \/ TFlushMeta \/ TCompactMeta \/ TPrepIdx \/ TFlushIdx \/ TCompactIdx
              \/ TReopen \/ TRefresh \/ TQuery \/ TDict
 TraceSpec == TraceInit /\ [][TraceNext]_tvars
 
